@@ -50,6 +50,7 @@ type Chain struct {
 	Receipts  map[common.Hash]*types.Receipt
 	removedLogs map[common.Hash][]*types.Log // logs of the block a transaction has left, not yet announced as removed
 	MaxServed uint64 // highest head number ever served to the watcher
+	MaxServedFinal uint64 // highest number ever served for the finalized / safe tag
 	FailNext  map[string]int
 	Reqs      []string
 	nreq      uint64
@@ -66,6 +67,7 @@ type Chain struct {
 type Served struct {
 	Receipt    *types.Receipt
 	HeadBefore uint64
+	FinalBefore uint64 // highest FINALIZED head served before this answer
 }
 
 type logSub struct {
@@ -190,6 +192,9 @@ func (s *Service) GetBlockByNumber(ctx context.Context, number string, full bool
 		if n > s.C.MaxServed {
 			s.C.MaxServed = n
 		}
+		if number != "latest" && n > s.C.MaxServedFinal {
+			s.C.MaxServedFinal = n
+		}
 	}
 	return map[string]interface{}{"number": hexutil.EncodeUint64(b.Number), "hash": b.Hash}, nil
 }
@@ -214,7 +219,7 @@ func (s *Service) GetTransactionReceipt(ctx context.Context, hash common.Hash) (
 	s.C.mu.Lock()
 	defer s.C.mu.Unlock()
 	rc := s.C.Receipts[hash]
-	s.C.LastServed[hash] = Served{rc, s.C.MaxServed}
+	s.C.LastServed[hash] = Served{rc, s.C.MaxServed, s.C.MaxServedFinal}
 	return rc, nil
 }
 
